@@ -401,8 +401,14 @@ void parseRandomCase(long idx) {
 }
 
 // ---- grouping
-void groupCase(long idx) {
-  vrt::Rng r = vrt::caseRng(idx);
+struct GroupBlock {
+  std::vector<std::string> cls;
+  long nontrivial = 0;
+  void add(const std::string& c) {
+    if (std::find(cls.begin(), cls.end(), c) == cls.end()) cls.push_back(c);
+  }
+};
+void groupOne(vrt::Rng& r, GroupBlock& blk) {
   // CPU ids: mostly dense, sometimes sparse, sometimes reaching beyond the CpuSet range
   long nCpu = r.chance(0.1) ? r.range(1, 3) : r.range(2, 160);
   std::vector<int32_t> cpus;
@@ -470,10 +476,9 @@ void groupCase(long idx) {
   if (r.chance(0.3)) maxGroup = static_cast<int32_t>(r.range(1, 40));
   const char* l3Names[] = {"no-l3", "contiguous-l3", "interleaved-l3", "partial-l3"};
   std::string maxCls = maxGroup <= 0 ? "max<=0" : (maxGroup < largestL2 ? "max<l2" : "max>=l2");
-  std::string key = std::string("group/") + l3Names[l3Style] + "/" + maxCls;
+  std::string key = std::string(l3Names[l3Style]) + "/" + maxCls;
   J spec;
   spec.kv("cpus", nCpu).kv("firstCpu", cpus.front()).kv("lastCpu", cpus.back()).kv("l2Groups", static_cast<long>(l2.size())).kv("l2Style", l2Style).kv("l3Groups", static_cast<long>(l3In.size())).kv("l3Style", l3Names[l3Style]).kv("maxGroupSize", maxGroup).kv("largestL2", largestL2);
-  vrt::caseBegin(idx, key, spec);
   std::vector<dispenso::ThreadGroup> out = dispenso::detail::buildGroupsFromCacheTopology(l2, l3In, maxGroup);
   // invariants
   std::map<int32_t, int> cpuToOut;
@@ -489,13 +494,13 @@ void groupCase(long idx) {
   bool covers = true;
   for (int32_t c : l2Cpus) covers = covers && cpuToOut.count(c);
   if (dup || !covers || total != static_cast<long>(l2Cpus.size()))
-    vrt::violation("groups are not a partition of the L2 CPUs", J().kv("cpusInGroups", total).kv("l2Cpus", static_cast<long>(l2Cpus.size())).kv("duplicate", dup).kv("allCovered", covers), "partition");
+    report("groups are not a partition of the L2 CPUs", J().kv("cpusInGroups", total).kv("l2Cpus", static_cast<long>(l2Cpus.size())).kv("duplicate", dup).kv("allCovered", covers).kv("topology", spec), key + "/partition");
   else {
     bool split = false;
     for (auto& g : l2) {
       for (int32_t c : g.cpus) split = split || cpuToOut[c] != cpuToOut[g.cpus[0]];
     }
-    if (split) vrt::violation("an L2 group is split over two thread groups", spec, "l2-split");
+    if (split) report("an L2 group is split over two thread groups", spec, key + "/l2-split");
     std::map<int32_t, int> cpuToL3;
     for (size_t g = 0; g < l3In.size(); ++g)
       for (int32_t c : l3In[g].cpus) cpuToL3[c] = static_cast<int>(g);
@@ -509,16 +514,28 @@ void groupCase(long idx) {
         seen = it->second;
       }
     }
-    if (mix) vrt::violation("a thread group mixes CPUs of two known L3 groups", spec, "l3-mix");
+    if (mix) report("a thread group mixes CPUs of two known L3 groups", spec, key + "/l3-mix");
     long bound = std::max<long>(maxGroup, largestL2);
     long biggest = 0;
     for (auto& g : out) biggest = std::max<long>(biggest, static_cast<long>(g.cpus.size()));
-    if (biggest > bound) vrt::violation("a thread group has " + std::to_string(biggest) + " CPUs, bound is " + std::to_string(bound), spec, "size");
+    if (biggest > bound) report("a thread group has " + std::to_string(biggest) + " CPUs, bound is " + std::to_string(bound), spec, key + "/size");
   }
-  std::vector<std::string> cls{std::string("group:") + l3Names[l3Style], "group:" + maxCls};
-  if (out.size() >= 2) cls.push_back("group:multiple-groups");
-  if (cpus.back() >= kSetSize) cls.push_back("group:cpu-beyond-setsize");
-  vrt::caseEnd(J().kv("groups", static_cast<long>(out.size())), l2.size() >= 2 ? spec.str() : "", cls);
+  blk.add(std::string("group:") + l3Names[l3Style]);
+  blk.add("group:" + maxCls);
+  if (out.size() >= 2) blk.add("group:multiple-groups");
+  if (cpus.back() >= kSetSize) blk.add("group:cpu-beyond-setsize");
+  if (l2.size() >= 2) ++blk.nontrivial;
+}
+constexpr long kGroupPerCase = 64;
+void groupCase(long idx) {
+  vrt::Rng r = vrt::caseRng(idx);
+  vrt::caseBegin(idx, "group", J().kv("topologies", kGroupPerCase));
+  GroupBlock blk;
+  for (long k = 0; k < kGroupPerCase; ++k) {
+    groupOne(r, blk);
+    vrt::progress();
+  }
+  vrt::caseEnd(J().kv("_evals", kGroupPerCase).kv("_nt", blk.nontrivial), "group#" + std::to_string(idx), blk.cls);
 }
 
 void runC43() {
@@ -527,6 +544,7 @@ void runC43() {
   const long nParse = vrt::g_args.getInt("nparse", th ? 3000 : 300);
   const long nGroup = vrt::g_args.getInt("ngroup", th ? 200000 : 20000);
   const int maxLen = static_cast<int>(vrt::g_args.getInt("maxlen", th ? 7 : 6));
+  vrt::leakCheckEvery(64); // thousands of tiny cases; the at-exit check still runs
   long idx = 0;
   for (long k = 0; k < nSet; ++k, ++idx)
     if (vrt::selected(idx)) setRandomCase(idx);
@@ -536,7 +554,7 @@ void runC43() {
     if (vrt::selected(idx)) parseEnumCase(idx, f, maxLen);
   for (long k = 0; k < nParse; ++k, ++idx)
     if (vrt::selected(idx)) parseRandomCase(idx);
-  for (long k = 0; k < nGroup; ++k, ++idx)
+  for (long k = 0; k < (nGroup + kGroupPerCase - 1) / kGroupPerCase; ++k, ++idx)
     if (vrt::selected(idx)) groupCase(idx);
 }
 
